@@ -489,6 +489,7 @@ type c08Mon struct {
 	prevSkip   [][2]uint64
 	prevRecv   []uint64
 	prevPend   [][2]uint64
+	input      func() any // what to report as the failing input (default: the operations so far)
 	docMode    bool // the history holds the expansion of document events: mentions in recent_sequences are not arrivals of their own
 	buffered   bool
 	skippedAny bool
@@ -502,6 +503,10 @@ func (m *c08Mon) fail(mon, sig string, detail string) {
 		return
 	}
 	m.failed = true
+	if m.input != nil {
+		m.rec.Fail(mon, sig, m.input(), detail)
+		return
+	}
 	m.rec.Fail(mon, sig, map[string]any{"stream": m.stream, "maxp": m.maxp, "initial": m.initial, "ops": m.hist, "trace": c08OpsString(m.hist)}, detail)
 }
 
